@@ -48,7 +48,7 @@ NUMERIC = {
 }
 
 XML_SIGMA = ["<", ">", "&", "]", "\r", "\n", "a", ";"]
-IRIS = [EX + "dir/x", EX + "dir/doc#frag", EX + "dir/doc", EX + "dir/", EX + "dir/sub/y", EX + "dir/doc?q=1", EX + "a", EX + "b#c", EX + "1digit", EX + "end.", EX + "a(b)", EX + "a%20b", EX + "ns/", EX, "http://other.org/x/y",
+IRIS = [EX + "a%b", EX + "100%", EX + "docs", EX + "dir/docs", EX + "dir/doc/below", EX + "dir/x", EX + "dir/doc#frag", EX + "dir/doc", EX + "dir/", EX + "dir/sub/y", EX + "dir/doc?q=1", EX + "a", EX + "b#c", EX + "1digit", EX + "end.", EX + "a(b)", EX + "a%20b", EX + "ns/", EX, "http://other.org/x/y",
         str(RDF.type), str(RDF.nil), str(RDF.first), str(XSD.string), "urn:x:y", "http://ex.org/é", EX + "a_b-c", EX + "a:b", "http://ex.org"]
 
 
@@ -268,12 +268,14 @@ def list_perturbations(maxdev):
     c1, c2, c3, x = B("c1"), B("c2"), B("c3"), B("x")
     TYPE = ["I", str(RDF.type), None, None]
     LIST = ["I", str(RDF.List), None, None]
+    z0, z1, z2 = B("a0"), B("z1"), B("a2")  # labels chosen so that a later cell sorts before the head and before the referring subject
     bases = [
+        [(z1, I("self"), z1), (z1, P, z2), (z2, FIRST, L("1", dt=str(XSD.integer))), (z2, REST, z0), (z0, FIRST, L("2", dt=str(XSD.integer))), (z0, REST, NIL)],
         [(A, P, c1), (c1, FIRST, L("1", dt=str(XSD.integer))), (c1, REST, c2), (c2, FIRST, L("0", dt=str(XSD.integer))), (c2, REST, NIL)],
         [(A, P, c1), (c1, FIRST, A), (c1, REST, c2), (c2, FIRST, L("")), (c2, REST, c3), (c3, FIRST, Bn), (c3, REST, NIL)],
         [(A, P, c1), (c1, FIRST, x), (c1, REST, c2), (c2, FIRST, L("y", lang="en")), (c2, REST, NIL), (x, Q, L("z"))],
     ]
-    menu = [(A, Q, c2), (Bn, P, c2), (A, Q, c1), (c2, P, L("extra")), (c2, TYPE, LIST), (c1, TYPE, LIST), (c2, FIRST, L("2", dt=str(XSD.integer))), (c2, REST, c1),
+    menu = [(NIL, FIRST, L("x")), (NIL, REST, NIL), (c2, Q, c2), (A, Q, c2), (Bn, P, c2), (A, Q, c1), (c2, P, L("extra")), (c2, TYPE, LIST), (c1, TYPE, LIST), (c2, FIRST, L("2", dt=str(XSD.integer))), (c2, REST, c1),
             (c2, REST, A), (c1, FIRST, L("0", dt=str(XSD.integer))), (c2, Q, c2), (NIL, P, A), (c1, P, c1), (x, Q, c2)]
     out = []
     seen = set()
